@@ -1,6 +1,6 @@
 """C15 - library-chosen common value is a most frequent value; equality is canonical (DESIGN.md 3, C15)."""
 from .. import machine as M
-from ..core import Sub, Violation
+from ..core import Sub, Violation, libcall
 
 PROPERTY = "C15"
 LEVEL = "exploration"
@@ -53,7 +53,7 @@ def check_array_common(case, rec):
     extra = [v for v in case.get("counts_extra", []) if v not in set(flat)]
     kwargs = {}
     if case["counts"]:
-        kwargs["counts"] = {v: flat.count(v) for v in sorted(set(flat))}
+        kwargs["counts"] = c01.ordered_counts(flat, case.get("counts_order", "value"))
         for v in extra:
             kwargs["counts"][v] = 0  # the variable's whole category list, absent categories with count 0
     m = None
@@ -85,7 +85,66 @@ def check_array_common(case, rec):
         rec.nontrivial()
 
 
+def enum_near_ties(tier, shard, nshards):
+    """Two dominant categories that are balanced or one or two cells apart, from 11 to 400 001 cells: the index is
+    built with the MINORITY value as its common value and then normalised by the library (shift_common(), a filter
+    that drops a few rows, an append of a few rows). Relative tolerances and 'about half' shortcuts fail only at size."""
+    i = 0
+    sizes = [11, 101, 1001, 100001, 400001] if tier == "quick" else [11, 101, 1001, 10001, 100001, 400001, 1000001]
+    for n in sizes:
+        for diff in (0, 1, 2):
+            for op in ("shift", "filter", "append"):
+                for two_d in (False, True):
+                    if i % nshards == shard:
+                        yield {"n": n, "diff": diff, "op": op, "two_d": two_d}
+                    i += 1
+
+
+def check_near_ties(case, rec):
+    import numpy
+
+    from .. import cubes as Q
+
+    n, diff = case["n"], case["diff"]
+    # values 1 and 2 alternate; the last `diff` cells are forced to 1, so 1 leads by about diff cells
+    a = numpy.ones(n, dtype=numpy.int64)
+    a[1::2] = 2
+    if diff:
+        a[-diff:] = 1
+    c1, c2 = int((a == 1).sum()), int((a == 2).sum())
+    minority = 2 if c1 >= c2 else 1
+    dense = a.reshape(-1, 1) if case["two_d"] else a
+    ix = Q.build_index(dense, minority)
+    what = "%s on %d cells (%d x value 1, %d x value 2, common %d)" % (case["op"], n, c1, c2, minority)
+    with libcall(what):
+        if case["op"] == "shift":
+            ix.shift_common()
+            after = dense
+        elif case["op"] == "filter":
+            mask = numpy.ones(n, dtype=bool)
+            mask[:3] = False
+            ix = ix.filtered(mask, int(mask.sum()))
+            after = dense[mask]
+        else:
+            extra = numpy.array([1, 1, 2], dtype=numpy.int64)
+            other = Q.build_index(extra.reshape(-1, 1) if case["two_d"] else extra, 2)
+            ix.append(other)
+            after = numpy.concatenate([dense, extra.reshape(-1, 1) if case["two_d"] else extra])
+    vals, counts = numpy.unique(after, return_counts=True)
+    best = int(counts.max())
+    have = int((after == ix.common).sum())
+    if have != best:
+        raise Violation("%s: the library kept / chose common %r which occurs %d times; value %r occurs %d times" % (
+            what, ix.common, have, int(vals[counts.argmax()]), best), sig="normalisation keeps a non-modal common value (near tie)")
+    got = Q.dense_of(ix)
+    if got.shape != after.shape or not numpy.array_equal(got, after):
+        raise Violation("%s: content changed" % what, sig="normalisation changed the content (near tie)")
+    rec.note("op=" + case["op"], "cells=%d" % n, "lead=%d" % abs(c1 - c2))
+    rec.nontrivial_enum()
+
+
 SUBS = [
+    Sub("near_ties", check_near_ties, enumerate=enum_near_ties, exhaustive=True, shards={"quick": 6, "thorough": 8}),
     Sub("histories", M.replay, runner=runner, examples=EX, weight=5),
     Sub("array_common", check_array_common, strategy=array_cases, examples={"quick": 8000, "thorough": 200000}),
 ]
